@@ -1455,6 +1455,13 @@ class GateauxDerivativeRuleset(GenericDerivativeRuleset):
         # `grad(N)` where N is a BaseFormOperator is treated as if `N` was a Coefficient.
         if not isinstance(o, FormArgument | BaseFormOperator):
             raise ValueError(f"Expecting gradient of a FormArgument, not {ufl_err_str(o)}.")
+        if o in self._cd and o not in self._w2v:
+            # The derivative is not zero but cannot be represented from the
+            # user-supplied derivative of o alone
+            raise NotImplementedError(
+                "Derivative of the gradient of a coefficient with a user-supplied "
+                "coefficient derivative is not supported."
+            )
 
         def apply_grads(f):
             for i in range(ngrads):
